@@ -28,3 +28,16 @@ package sync
 //gvc:func PutBufioReader
 //gvc:  trusted
 //gvc:end
+
+// GetZlibReader: object and pack data are plain zlib streams: git inflates
+// them without a preset dictionary, so a stream that asks for one (FDICT) must
+// be refused. The pooled reader is therefore reset without a dictionary
+// (property C09: what git index-pack rejects for a structural reason is
+// rejected).
+//gvc:func GetZlibReader
+//gvc:  props C09
+//gvc:  theory int
+//gvc:  opt coarse
+//gvc:  opt frame args
+//gvc:  sink Reset requires nodict: len(arg1) == 0
+//gvc:end
